@@ -1170,7 +1170,7 @@ def _perm_source(ctx):
     ok, stats = taint.regenerate(ctx, ('TJ.Props.C05Gen',))
     ctx.extra_cov['minic'] = {k: stats.get(k) for k in ('functions', 'translated', 'errors', 'build_ok')}
     if stats.get('errors'): ctx.broken_proofs.append('tools/c2lean.py cannot translate the current sources: ' + '; '.join(stats['errors'][:3]))
-    elif not ok: ctx.broken_proofs.append('TJ.Props.C05Gen (regenerated tinyjambu_permutation_128/256 = model perm128/perm256) no longer checks: ' + re.sub(r'\s+', ' ', stats.get('build_log_tail', ''))[-600:])
+    elif not ok: ctx.broken_proofs.append('TJ.Props.C05Gen (regenerated tinyjambu_permutation_128/192/256 = model perm128/perm192/perm256) no longer checks: ' + re.sub(r'\s+', ' ', stats.get('build_log_tail', ''))[-600:])
 
 def check_C05(ctx):
     ctx.build(); _perm_source(ctx); ctx.lean(extra_modules=['TJ.Props.C05Gen'])
